@@ -307,12 +307,21 @@ let cache_dump_coherent (impl : string) : bool =
    commit on a plain MemDB; the extracted Flusher.fl_batches (FlusherFacts: nothing lost, greedy and
    maximal cuts) must cut the same stream of operation sizes at the same places (empty batches,
    which the recorder does not see, left out). Returns the cut list the model computes. *)
+let show_bop = function
+  | BSet0 (k, v) -> Printf.sprintf "s%d+%d" (List.length k) (List.length v)
+  | BDel0 k -> Printf.sprintf "d%d" (List.length k)
+let show_batches (th : int) (ops : bop0 list) : string =
+  let model = List.filter (fun b -> b <> []) (fl_batches (z_of_int th) ops) in
+  String.concat "|" (List.map (fun b -> String.concat "," (List.map show_bop b)) model)
 let flusher_cuts (body : string) : string =
   match String.index_opt body ':' with
   | None -> body
   | Some i ->
       let th = int_of_string (String.sub body 0 i) in
       let rest = String.sub body (i + 1) (String.length body - i - 1) in
+      let rest, tail = (match String.index_opt rest '#' with
+          | Some j -> (String.sub rest 0 j, String.sub rest j (String.length rest - j))
+          | None -> (rest, "")) in
       let zeros n = List.init n (fun _ -> N0) in
       let batches = if rest = "" then [] else List.map (fun b -> String.split_on_char ',' b) (String.split_on_char '|' rest) in
       let op_of (o : string) : bop0 =
@@ -322,9 +331,16 @@ let flusher_cuts (body : string) : string =
             | [ a; b ] -> BSet0 (zeros (int_of_string a), zeros (int_of_string b))
             | _ -> failwith "bad batch op") in
       let ops = List.map op_of (List.concat batches) in
-      let model = List.filter (fun b -> b <> []) (fl_batches (z_of_int th) ops) in
-      let show_op = function BSet0 (k, v) -> Printf.sprintf "s%d+%d" (List.length k) (List.length v) | BDel0 k -> Printf.sprintf "d%d" (List.length k) in
-      Printf.sprintf "%d:%s" th (String.concat "|" (List.map (fun b -> String.concat "," (List.map show_op b)) model))
+      Printf.sprintf "%d:%s%s" th (show_batches th ops) tail
+(* the whole "wb" field from the model alone: the byte stream of the commit
+   (PhysCommit.commit_bops on the FastLife mirror), cut by Flusher.fl_batches at the configured
+   threshold, with the MD5 of every operation's bytes *)
+let commit_wb (th : int) (ops : bop0 list) : string =
+  let buf = Buffer.create 1024 in
+  List.iter (function
+      | BSet0 (k, v) -> Buffer.add_string buf (Printf.sprintf "s%s=%s;" (hex_of_bytes k) (hex_of_bytes v))
+      | BDel0 k -> Buffer.add_string buf (Printf.sprintf "d%s;" (hex_of_bytes k))) ops;
+  Printf.sprintf "%d:%s#%s" th (show_batches th ops) (Digest.to_hex (Digest.string (Buffer.contents buf)))
 
 let current_expected : string option ref = ref None
 
@@ -816,12 +832,15 @@ let make_m1 (params : string list) : machine =
                nodes in post order with the root last (Store.commit_ops, used by CrashFacts) *)
             let ops = commit_ops_sha !fast !st in
             let nodes = List.filter_map (function WSet (KNode (v, n), _) -> Some (Printf.sprintf "%d.%d" (int_of_z v) (int_of_z n)) | _ -> None) ops in
+            let wsave_bops = commit_bops_sha !fs in
             let s', x = m_step !st OSave in
             st := s';
             let impl = (match !current_expected with Some e -> e | None -> "") in
             let wb = (try
                         let body = section_between impl ";wb[" in
-                        if body = "-" then "-" else flusher_cuts body
+                        if body = "-" then "-"
+                        else if is_legacy || Sys.getenv_opt "VERIF_NOFMIRROR" <> None then flusher_cuts body
+                        else commit_wb (int_of_string (String.sub body 0 (String.index body ':'))) wsave_bops
                       with _ -> "-") in
             "(ws[" ^ String.concat "," nodes ^ "];wb[" ^ wb ^ "]," ^ show_out x ^ ")"
         | [ "r"; t; "istop"; api; s0; e0; asc; n ] ->
